@@ -591,10 +591,20 @@ func (fv *FuncVC) applyContract(site ssa.Instruction, fc *FuncContract, key stri
 		cw := strings.TrimSpace(strings.TrimPrefix(strings.TrimSpace(fv.FC.Opts["panics"]), "when"))
 		_, callerMay := fv.FC.Opts["panics"]
 		if !(callerMay && (cw == "" || cw == "true")) {
+			// what the caller's own contract allows (parameters: entry values; state: now)
+			allowed := tFalse
+			if callerMay {
+				if ce, err := ParseExpr(cw); err == nil {
+					cenv := fv.newEnv(fv.cur, fv.entry)
+					allowed = cenv.boolExpr(ce, fv.FC.Pos)
+				} else {
+					fv.abort("panics clause: %v", err)
+				}
+			}
 			if w == "" || w == "true" {
-				fv.oblige("pre", fmt.Sprintf("%s#%d.nopanic", short, n), tFalse, site.Pos(), "callee may panic unconditionally")
+				fv.oblige("pre", fmt.Sprintf("%s#%d.nopanic", short, n), allowed, site.Pos(), "callee may panic unconditionally")
 			} else if pe, err := ParseExpr(w); err == nil {
-				fv.oblige("pre", fmt.Sprintf("%s#%d.nopanic", short, n), not(env.boolExpr(pe, fc.Pos)), site.Pos(), "callee's panic condition is excluded: !("+w+")")
+				fv.oblige("pre", fmt.Sprintf("%s#%d.nopanic", short, n), implies(env.boolExpr(pe, fc.Pos), allowed), site.Pos(), "callee's panic condition is excluded or allowed by the caller's contract: "+w)
 			} else {
 				fv.abort("panics clause of %s: %v", key, err)
 			}
